@@ -31,28 +31,35 @@ VMOD = "PyMatterSim.static.vector"
 NOT_DECIDED = [
     "numerical conditioning / accuracy of np.linalg.eigh (A1: floats are reals; eigh is an assumed relational contract)",
     "'confirmed by finite differences' is replaced by the symbolic second derivative (pyvc.diff); finite differences are used only in the replay harness",
-    "the last composition step of the symmetry and translation clauses (from the proved entry-wise form of the saved matrix + the proved lemmas "
-    "B(-x)^T = B(x), D(j,i) = -D(i,j), the vanishing translation summand, to 'H = H^T' and 'H M^1/2 e_q = 0' over all neighbours) is an argument "
-    "on paper (substitution of equals and linearity of the neighbour sum), not one machine-checked query; symmetric parameter matrices are its hypothesis",
-    "participation ratios of the *saved eigenvectors* in (0,1]: proved for every non-zero field (unit participation_ratio); that the reshaped eigenvector "
-    "is non-zero needs the regrouping sum_{a<dN} f(a) = sum_{n<N} sum_{c<d} f(nd+c) of eigh's normalisation, which is not proved here",
+    "symmetry of the saved matrix for parameter matrices that are NOT symmetric in the two types: the clause symmetric:H[...] has 'epsilons, sigmas, r_cuts "
+    "symmetric' as its hypothesis (docs/hessian.md: parameters 'for all pairs of particle type'; for an asymmetric table the code's off-diagonal block "
+    "-B_{t_i t_j} is not the second derivative of any pair energy)",
     "pairs exactly at the cutoff r_ij = rc (the documented energy is not twice differentiable there; the contract follows the inclusive test r <= rc) "
     "and, for harmonic/Hertz, pairs exactly at contact r = sigma (outside the precondition of the C12 contract)",
-    "number of species K > 2 in the assembly unit (the species case split is enumerated: K = 1, 2; the code path is the same for all K)",
+    "number of species K > 3 (the species case split is enumerated: K = 1, 2, 3 in 2-D, K = 1 in 3-D in the quick tier; the code path is the same for all K; "
+    "d=3/K=2 is proved by the same contract off-line, case string `d=3/K=2`, about 3 min on one core)",
     "the change '<=' -> '<' of the cutoff test differs from the contract only at exact ties r_ij = rc: the obligation is then not proved and no "
     "float input shows it (UNDECIDED, exit 2), not a VIOLATION",
 ]
 TRUSTED = [
-    "assumed relational contract of np.linalg.eigh (pyvc/libext/C11.py): fresh (w, V); only the column normalisation sum_b V(b,k)^2 = 1 is given to the solver",
+    "assumed relational contract of np.linalg.eigh (pyvc/libext/C11.py): fresh (w, V); only the column normalisation sum_b V(b,k)^2 = 1 is given to the solver "
+    "(used by the clause PR-range:eigenvector-is-a-non-zero-field)",
     "differentiation rules of pyvc/diff.py including the chain rule through sqrt and through an abstract function phi (the definition of 'second derivative' here)",
     "callee contract of PairInteractions.caller is the C12 contract (triple = derivatives of the documented s(r)), used generalised to an arbitrary function "
     "of (r, epsilon, sigma, r_c, shift); callee contract of remove_pbc is the C02 row spec (pbc_spec_row)",
     "written loop summaries (pyvc.loops.written_summary) are checked by init/step obligations; the induction principle over the loop counter / particle number is trusted",
+    "induction rule used by the clause families translations:row-sum, translations:constant-factor, PR-range:regrouping (claim(0) and claim(n) => claim(n+1) for a "
+    "fresh n, both proved with the Sigma unfold axiom instances, give claim(N)) and, for PR-range:induction, in the partial-sum form (base P(0; 0, 0); step "
+    "P(k; s1, s2) => P(k+1; s1 + a, s2 + a^2) for arbitrary reals s1, s2, a gives P(N; sum a_t, sum a_t^2)); the instance at N is handed to the final query as an assumption",
+    "a fact proved at fresh symbolic indices (i, n) is used at other index terms by substitution: at the Skolem index of Sigma-extensionality "
+    "(symmetric:diagonal-summand at (i, x)) and at the induction variable; sv.generalize (a term replaced by a fresh constant) is a sound proving step",
     "universally quantified preconditions are used by instantiation: 'every particle type is in 1..K' (per application of ptype), 'no two particles coincide "
-    "modulo the periodic lattice' (at the pair of the loop step); definitions of the named spec functions within_rc/Bdiag/Boff are revealed at the pair of the step",
+    "modulo the periodic lattice' (at the pair of the loop step); definitions of the named spec functions within_rc/Bdiag/Boff are revealed at the pair of the step "
+    "and at the pairs (i,j), (j,i), (i,n) of the structure clauses (conservative extension by definitions)",
     "generalisation pre-pass of pyvc.solve (products and reciprocals of non-numerals -> uninterpreted nl!mul / nl!inv with commutativity instances) is sound "
     "for proving only; it never produces a refutation",
-    "instances sqrt(m_a m_a) = m_a of the lemma x > 0 => sqrt(x x) = x (proved as C11:lemma:x>0=>sqrt(x.x)=x)",
+    "instances sqrt(m_a m_a) = m_a of the lemma x > 0 => sqrt(x x) = x (proved as C11:lemma:x>0=>sqrt(x.x)=x); instances, for every pair of species masses, of "
+    "C11:lemma:translation-summand:product-form; instances rint(-m_k) = -rint(m_k) of C11:lemma:rint(-a)=-rint(a) as rewrites of the ring normaliser",
     "pandas: DataFrame(dict).to_csv writes the columns in insertion order (pyvc/pandas_model.py)",
 ]
 
@@ -610,7 +617,7 @@ class Diagonalize(Unit):
     def cases(self):
         # K = number of species (masses / parameter matrices K x K); d=3 with K=2 is also proved (about 3 min on one core) and
         # can be enabled here; the quick tier keeps the species case split in 2-D, where the mass logic is the same code
-        return ["d=2/K=2", "d=3/K=1", "d=2/K=1/default-outputfile"]
+        return ["d=2/K=2", "d=2/K=3", "d=3/K=1", "d=3/K=3", "d=2/K=1/default-outputfile"]
 
     # ------------------------------------------------------------------------------------------ callee contracts
     def _summaries(self, S):
@@ -1162,7 +1169,7 @@ def _replay_diag(case, clause, model, seed, trials=36):
                    f"masses {mvec[a_ // d]}, {mvec[b_ // d]})")
         if bad is None and np.abs(Hs - Hs.T).max() > 1e-8 * scale:
             bad = "saved matrix not symmetric"
-        if bad is None and np.all(ppp == 1):
+        if bad is None:        # clause translations:* (proved for every mask: the pair energy depends on differences r_i - r_j only)
             for q in range(d):
                 v = np.zeros(d * N)
                 v[q::d] = np.sqrt(mvec)
@@ -1261,6 +1268,6 @@ def extra_checks(tier, seed, repo):
 
 
 MANIFEST = {
-    "text": "For d in {2,3}, symbolic particle number N, symbolic positions, any non-singular cell, any periodicity mask in {0,1}^d, K in {1,2} species with arbitrary positive masses and arbitrary K x K parameter matrices, both shift settings and every potential selectable through PairInteractions.caller: (1) HessianMatrix.pair_matrix returns d2 phi(|a-b|)/da.da and d2 phi(|a-b|)/da.db (= minus the former) with phi' = s1 - s1rc, phi'' = s2, the derivatives being produced by symbolic differentiation of phi(sqrt(sum (a_k-b_k)^2)); the block is symmetric; (2) in HessianMatrix.diagonalize_hessian every entry of the matrix that is saved, and that is passed to eigh, equals the entry of M^-1/2 d2U M^-1/2: off-diagonal block -[r_ij <= rc] B(D(i,j))/sqrt(m_i m_j), diagonal block sum_j [r_ij <= rc] B(D(i,j))/m_i, with D the minimum image of C02 and the pair triple of C12 evaluated at (r_ij, eps, sigma, rc of the two types, shift) (both particle loops by written summaries with init/step obligations); which files are written, saved eigenvectors = eigh output, omega = sqrt(lambda) for lambda > 0 else lambda, PR column = participation ratio of the eigenvector reshaped to (N, d); inputs not written; (3) participation_ratio = (sum|e|^2)^2/(N sum|e|^4) and lies in (0,1] for every non-zero field (Cauchy-Schwarz by induction over N); (4) lemmas for the symmetry and translation clauses: B(-x)^T = B(x), minimum image odd, translation summand vanishes.",
-    "note": "floats as reals (A1); np.linalg.eigh assumed (relational); callee contracts of caller (C12, generalised) and remove_pbc (C02); no-coincident-particles and types-in-1..K as preconditions; the composition of the symmetry/translation lemmas over the neighbour sum is on paper; K > 2 not enumerated; on the unfixed repository the obligation assembly:diagonal-block fails (diagonal block weighted 1/sqrt(m_i m_j) instead of 1/m_i) - see design_notes/C11.md, fix design_notes/C11.fix-1.diff",
+    "text": "For d in {2,3}, symbolic particle number N, symbolic positions, any non-singular cell, any periodicity mask in {0,1}^d, K in {1,2,3} species (2-D; K = 1 in 3-D) with arbitrary positive masses and arbitrary K x K parameter matrices, both shift settings and every potential selectable through PairInteractions.caller: (1) HessianMatrix.pair_matrix returns d2 phi(|a-b|)/da.da and d2 phi(|a-b|)/da.db (= minus the former) with phi' = s1 - s1rc, phi'' = s2, the derivatives being produced by symbolic differentiation of phi(sqrt(sum (a_k-b_k)^2)); the block is symmetric; (2) in HessianMatrix.diagonalize_hessian every entry of the matrix that is saved, and that is passed to eigh, equals the entry of M^-1/2 d2U M^-1/2: off-diagonal block -[r_ij <= rc] B(D(i,j))/sqrt(m_i m_j), diagonal block sum_j [r_ij <= rc] B(D(i,j))/m_i, with D the minimum image of C02 and the pair triple of C12 evaluated at (r_ij, eps, sigma, rc of the two types, shift) (both particle loops by written summaries with init/step obligations); which files are written, saved eigenvectors = eigh output, omega = sqrt(lambda) for lambda > 0 else lambda, PR column = participation ratio of the eigenvector reshaped to (N, d); inputs not written; (3) from that entry-wise form alone, at symbolic particles i, j and components p, q: the saved matrix is symmetric, H[i d+p, j d+q] = H[j d+q, i d+p], when the parameter matrices are symmetric in the two types (minimum image odd, |D(j,i)| = |D(i,j)|, symmetric neighbour relation, B(-x)^T = B(x), mixed partials commute, Sigma-extensionality for the diagonal block), and every row annihilates the mass-weighted uniform translations, sum_j H[i d+p, j d+q] sqrt(m_j) = 0, for every mask (pair summand (B/m_i) sqrt(m_i) - (B/sqrt(m_i m_j)) sqrt(m_j) = 0, split of the row sum at j = i and the constant factor sqrt(m_i) by two inductions over the upper limit); (4) participation_ratio = (sum|e|^2)^2/(N sum|e|^4) and lies in (0,1] for every non-zero field (Cauchy-Schwarz by induction over N); the PR written for every mode lies in (0,1]: the reshaped eigenvector is a non-zero field by eigh's normalisation and the regrouping sum_{b<dN} f(b) = sum_{n<N} sum_{c<d} f(n d+c) (induction, base + step), Cauchy-Schwarz for that field by induction.",
+    "note": "floats as reals (A1); np.linalg.eigh assumed (relational; its column normalisation is used for the PR range); callee contracts of caller (C12, generalised) and remove_pbc (C02); no-coincident-particles and types-in-1..K as preconditions; symmetric parameter matrices are the hypothesis of the symmetry clause only; the induction principle and the instantiation of facts proved at fresh indices are the trusted rules (TRUSTED); K > 3 and d=3 with K >= 2 are not enumerated in the quick tier; on the repository before the fix d593b58 the obligation assembly:diagonal-block fails (diagonal block weighted 1/sqrt(m_i m_j) instead of 1/m_i) - see design_notes/C11.md, fix design_notes/C11.fix-1.diff",
 }
